@@ -97,7 +97,7 @@ def judge(case):
             vv = [] if ok_v else [core.viol("C02/vacuum_law", "fluxes %r differ from permeance x feed partial pressure %r" % (J, (P[0] * pf[0], P[1] * pf[1])))]
             return core.result("judged-unobserved", digest=core.digest_of([core.fhex(J[0]), core.fhex(J[1])]), viol=vv)
         y_law = solve_law_for_y(mix, case, kw, mode, pf, J, P)
-        yJ0 = J[0] / (J[0] + J[1])
+        yJ0 = J[0] / (J[0] + J[1]) if (J[0] + J[1]) != 0 else math.nan
         if y_law is None or not abs(y_law - yJ0) < max(case["precision"], 1e-9) * 1.5:
             return core.result("judged-unobserved", viol=[core.viol("C02/driving_force/unobserved", "returned fluxes %r (no driving-force evaluation was observable) do not satisfy permeance x (feed - permeate "
                                                                   "partial pressure) at any permeate composition within the precision of their own composition %r (closest: %r)" % (J, yJ0, y_law))])
@@ -135,7 +135,7 @@ def judge(case):
         if not abs(lhs - rhs) <= core.ULP * (abs(pf[0]) + abs(pf[1]) + abs(mode[1])) * 4:
             v.append(core.viol("C02/pressure_identity", "J1/P1 + J2/P2 = %r but p_feed1 + p_feed2 - p = %r" % (lhs, rhs)))
     # (d) self-consistency where the map is locally contractive
-    yJ = J[0] / (J[0] + J[1])
+    yJ = J[0] / (J[0] + J[1]) if (J[0] + J[1]) != 0 else None  # all-zero fluxes have no composition: (a)-(c) decide
     contract = None
     judged_d = 0
     if mode != "vac":
@@ -152,7 +152,7 @@ def judge(case):
             contract = None
     else:
         contract = 0.0
-    if contract is not None and contract < case.get("contract_max", 0.9):
+    if contract is not None and contract < case.get("contract_max", 0.9) and yJ is not None:
         judged_d = 1
         if not abs(yJ - ys) < case["precision"]:
             v.append(core.viol("C02/self_consistency", "composition of the returned fluxes %r differs from the permeate composition used %r by more than the precision %r (local contraction %.3g)" % (
@@ -187,14 +187,33 @@ def judge(case):
         if o_c["status"] == "ok" and o_f["status"] == "ok":
             Jf = o_f["fluxes"]
             y_law = solve_law_for_y(mix, case, kw, mode, pf, Jf, P)
-            yJf = Jf[0] / (Jf[0] + Jf[1])
-            if y_law is not None:
+            yJf = Jf[0] / (Jf[0] + Jf[1]) if (Jf[0] + Jf[1]) != 0 else None
+            if y_law is not None and yJf is not None:
                 judged_f = 1
                 if not abs(y_law - yJf) < case["precision"] * (1 + 1e-6) + 1e-12:
                     v.append(core.viol("C02/self_consistency_after_coarser_call", "asked with precision %r right after the same state was asked with precision %r on the same object: "
                                        "the returned fluxes satisfy the law at permeate composition %r but their own composition is %r" % (case["precision"], coarse, y_law, yJf)))
         elif o_f["status"] != "ok" and o_c["status"] == "ok":
             pass  # raising/looping is C10's business
+    # (g) the caller re-uses ONE feed Composition object and edits its value in place between two questions (also the caller's
+    # Permeance objects): the second answer must be the fresh-object answer, bit for bit
+    if not v:
+        x_other = 0.37 if abs(case["x"] - 0.37) > 0.05 else 0.61
+        feed = U.Composition(p=x_other, type=comp.type)
+        p1, p2 = U.Permeance(value=P[0] * 1.7), U.Permeance(value=P[1] * 0.6)
+        pv3 = solver.make_pv(mix)
+        pv3.observe(budget=BUDGET)
+        st1, _ = core.call(pv3.calculate_partial_fluxes, feed_temperature=case["T"], composition=feed, precision=case["precision"], first_component_permeance=p1,
+                           second_component_permeance=p2, calculation_type=case["model"], **kw)
+        core.call(U.pyvaporation.get_partial_pressures, case["T"], mix, feed, case["model"])
+        feed.p = comp.p
+        p1.value, p2.value = P[0], P[1]
+        pv3.observe(budget=BUDGET)
+        st2, j2 = core.call(pv3.calculate_partial_fluxes, feed_temperature=case["T"], composition=feed, precision=case["precision"], first_component_permeance=p1,
+                            second_component_permeance=p2, calculation_type=case["model"], **kw)
+        if st2 != "ok" or not (core.bit_eq(float(j2[0]), J[0]) and core.bit_eq(float(j2[1]), J[1])):
+            v.append(core.viol("C02/stale_after_caller_edit", "the caller's feed Composition / Permeance objects were first used at x=%r, P=%r and then set in place to x=%r, P=%r: the flux calculation "
+                               "returns %r, with fresh objects %r" % (x_other, (P[0] * 1.7, P[1] * 0.6), comp.p, tuple(P), j2 if st2 != "ok" else (float(j2[0]), float(j2[1])), J)))
     return core.result("judged", digest=core.digest_of([core.fhex(J[0]), core.fhex(J[1])]), viol=v,
                        judged_contractive=judged_d, judged_scalings=judged_e, judged_sequences=judged_f, max_contraction=contract,
                        max_calls=out["calls"], sample={"J": J, "y_star": ys, "calls": out["calls"], "L": contract})
